@@ -9,6 +9,13 @@ for f in sorted(glob.glob(os.path.join(HERE, "wrapsa", "*.py")) + glob.glob(os.p
     for p_ in ast.walk(t):
         for c_ in ast.iter_child_nodes(p_):
             c_._parent = p_
+    seen_defs = {}
+    for st in t.body:
+        if isinstance(st, (ast.FunctionDef, ast.ClassDef)):
+            if st.name in seen_defs:
+                print(f"{os.path.relpath(f, HERE)}:{st.lineno}: `{st.name}` redefines the top-level definition at line {seen_defs[st.name]}")
+                bad += 1
+            seen_defs[st.name] = st.lineno
     mod = set()
     for st in ast.walk(t):
         if isinstance(st, (ast.Import, ast.ImportFrom)):
